@@ -1,9 +1,9 @@
 (* C16 — concrete histories used as refutation witnesses and non-vacuity examples in Props/C16.v.
-   Strings are code-point lists; T0 = 1700000000. *)
+   Strings are code-point lists; instants are in ticks of 1/8 s: T0 = 8 * 1700000000. *)
 From AV Require Import Lib.Base Generated.CookiesGen Model.Cookies Proofs.CookiesStrings Proofs.CookiesJar Proofs.CookiesSound Proofs.CookiesSpec.
 Open Scope N_scope.
 
-Definition T0 : Z := 1700000000%Z.
+Definition T0 : Z := (8 * 1700000000)%Z.
 Definition s_a : str := [97].
 Definition s_v1 : str := [118; 49].
 Definition s_v2 : str := [118; 50].
@@ -45,7 +45,7 @@ Definition w_example : list op :=
    OFilter {| u_secure := true; u_host := [101; 120; 97; 109; 112; 108; 101; 46; 99; 111; 109]; u_path := [47; 120] |};
    OFilter {| u_secure := false; u_host := [101; 120; 97; 109; 112; 108; 101; 46; 99; 111; 109]; u_path := [47; 120] |};
    OFilter {| u_secure := true; u_host := [98; 97; 100; 101; 120; 97; 109; 112; 108; 101; 46; 99; 111; 109]; u_path := [47; 120] |};
-   OAdvance 10;
+   OAdvance 80;
    OFilter {| u_secure := true; u_host := [101; 120; 97; 109; 112; 108; 101; 46; 99; 111; 109]; u_path := [47; 120] |}].
 
 (* the three histories on which the jar used to attach a cookie the RFC forbids (repaired in /repo:
